@@ -128,3 +128,46 @@ def text_program(cmds):
         argv = [x.encode() if isinstance(x, str) else x for x in argv]
         lines.append(render(argv, [], full=True))
     return lines
+
+
+def small_scope(maxlen=4, lpos_len=6, span=6):
+    """exhaustive small-scope programs: every list over {a, b} up to `maxlen` elements against every index pair / count in
+    [-span, span] for LRANGE, LINDEX, LTRIM, LSET, LREM, LPOP/RPOP count, and (lists up to `lpos_len`) every LPOS option triple"""
+    import itertools
+    from .execgen import render
+    k = b"k"
+    rngi = [str(i).encode() for i in range(-span, span + 1)]
+    lines = []
+    for n in range(1, maxlen + 1):
+        for t in itertools.product([b"a", b"b"], repeat=n):
+            fill = [b"rpush", k] + list(t)
+            lines.append("R")
+            lines.append(render(fill, [k]))
+            for s in rngi:
+                lines.append(render([b"lindex", k, s], [k]))
+                for e in rngi:
+                    lines.append(render([b"lrange", k, s, e], [k]))
+            for s in rngi:
+                for e in rngi:
+                    lines += [render([b"del", k], [k]), render(fill, [k]), render([b"ltrim", k, s, e], [k])]
+                lines += [render([b"del", k], [k]), render(fill, [k]), render([b"lset", k, s, b"z"], [k])]
+                for v in (b"a", b"b"):
+                    lines += [render([b"del", k], [k]), render(fill, [k]), render([b"lrem", k, s, v], [k])]
+                for c in (b"lpop", b"rpop"):
+                    lines += [render([b"del", k], [k]), render(fill, [k]), render([c, k, s], [k])]
+    for n in range(1, lpos_len + 1):
+        for t in itertools.product([b"a", b"b"], repeat=n):
+            lines.append("R")
+            lines.append(render([b"rpush", k] + list(t), [k]))
+            for rank in [None, 1, 2, 3, -1, -2, -3]:
+                for count in [None, 0, 1, 2, 3]:
+                    for ml in [None, 0, 1, 2, 3, 4, 5, 6, 7]:
+                        a = [b"lpos", k, b"a"]
+                        if rank is not None:
+                            a += [b"rank", str(rank).encode()]
+                        if count is not None:
+                            a += [b"count", str(count).encode()]
+                        if ml is not None:
+                            a += [b"maxlen", str(ml).encode()]
+                        lines.append(render(a, [k]))
+    return lines
